@@ -19,10 +19,10 @@ def boot():
   sys.path.insert(0, REPO)
   sys.path.insert(0, SHIM)
   import logging
-  logging.disable(logging.WARNING)
+  logging.disable(logging.CRITICAL)
   try:
     from absl import logging as al
-    al.set_verbosity(al.ERROR)
+    al.set_verbosity(al.FATAL)
   except Exception:
     pass
   import protoshim
